@@ -4,121 +4,234 @@
 (* (property C10), and a batch validator of recorded scene histories.      *)
 (*                                                                         *)
 (* A scene configuration is a forest of frames (parent index per node,     *)
-(* 0 = the base frame), an exact affine edge transform per node (integer   *)
-(* 3x3 linear part: rotation from the cube group times an integer uniform  *)
-(* scale, and an integer translation), an optional geometry per node, and  *)
-(* a table of geometries (integer vertices, triangles as 1-based index     *)
-(* triples, empty for point clouds).                                       *)
+(* 0 = the base frame), an exact affine edge transform per node            *)
+(*     x |-> (l.x + t) / d      l integer 3x3, t integer vector, d > 0     *)
+(* (rotations from the cube group, rational rotations such as the 3-4-5    *)
+(* one, uniform scales 2 and 1/2, integer translations), an optional       *)
+(* geometry per node, and a table of geometries (integer vertices,         *)
+(* triangles as 1-based index triples, empty for point clouds and paths).  *)
 (*   World(n)  = product of the edge transforms from the base to n         *)
 (*   Placed    = for every node with geometry, that geometry moved by      *)
 (*               World(n)                                                  *)
 (* Every scene quantity is a function of Placed.  Operations (copy,        *)
-(* scaled, rezero, apply_transform, add, subscene, dump/to_mesh, geometry  *)
-(* and graph edits) are specified by their effect on Placed.               *)
+(* scaled, rezero, unit conversion, apply_transform, add, subscene,        *)
+(* dump / to_mesh / to_geometry, geometry and graph edits) are specified   *)
+(* by their effect on Placed: a sequence of STEPS, each an affine map or a *)
+(* re-zeroing, applied in order to the placed points (optionally only to   *)
+(* the instances of the first scene of a sum).                             *)
+(*                                                                         *)
+(* Coordinates are handled in units of 1/F (c.F is chosen by the harness   *)
+(* so that every division below is exact; an inexact division is reported  *)
+(* as the clause "inexact", which the harness treats as a machinery error, *)
+(* never as a violation).                                                  *)
 (***************************************************************************)
 EXTENDS Integers, Sequences, FiniteSets, TLC, Json
 
 Cases == ndJsonDeserialize("cases.ndjson")
 VARIABLE i
 
-\* ---------------------------------------------------------- exact affine maps
-\* an affine map is a record [l |-> 3x3 integer matrix as <<row,row,row>>, t |-> <<x,y,z>>]
+\* ---------------------------------------------------------- exact arithmetic
 IdL == <<<<1, 0, 0>>, <<0, 1, 0>>, <<0, 0, 1>>>>
-IdA == [l |-> IdL, t |-> <<0, 0, 0>>]
 Dot(r, v) == r[1] * v[1] + r[2] * v[2] + r[3] * v[3]
 MulLV(L, v) == <<Dot(L[1], v), Dot(L[2], v), Dot(L[3], v)>>
-Col(L, j) == <<L[1][j], L[2][j], L[3][j]>>
-MulLL(A, B) == [r \in 1..3 |-> <<Dot(A[r], Col(B, 1)), Dot(A[r], Col(B, 2)), Dot(A[r], Col(B, 3))>>]
 AddV(a, b) == <<a[1] + b[1], a[2] + b[2], a[3] + b[3]>>
-Apply(A, p) == AddV(MulLV(A.l, p), A.t)
-Compose(A, B) == [l |-> MulLL(A.l, B.l), t |-> AddV(MulLV(A.l, B.t), A.t)]      \* A after B
+SubV(a, b) == <<a[1] - b[1], a[2] - b[2], a[3] - b[3]>>
 Det(L) == L[1][1] * (L[2][2] * L[3][3] - L[2][3] * L[3][2])
         - L[1][2] * (L[2][1] * L[3][3] - L[2][3] * L[3][1])
         + L[1][3] * (L[2][1] * L[3][2] - L[2][2] * L[3][1])
+Det3(a, b, c) == Det(<<a, b, c>>)
 Abs(x) == IF x < 0 THEN -x ELSE x
-FromRec(e) == [l |-> e.l, t |-> e.t]
+RECURSIVE Gcd(_, _)
+Gcd(a, b) == IF b = 0 THEN a ELSE Gcd(b, a % b)
+\* non-negative rationals <<num, den>> in lowest terms
+RMul(a, b) == LET n == a[1] * b[1]  d == a[2] * b[2]  g == Gcd(n, d) IN IF n = 0 THEN <<0, 1>> ELSE <<n \div g, d \div g>>
+ROne == <<1, 1>>
+
+\* a point in units of 1/F carries a fourth component: 1 while every division so far was exact
+P3(p) == <<p[1], p[2], p[3]>>
+Divs(x, d) == x % d = 0
+\* the affine map e = [l, t, d] applied to a point p given in units of 1/F
+StepPt(e, F, p) ==
+    LET q == AddV(MulLV(e.l, p), <<F * e.t[1], F * e.t[2], F * e.t[3]>>)
+    IN <<q[1] \div e.d, q[2] \div e.d, q[3] \div e.d,
+         IF p[4] = 1 /\ Divs(q[1], e.d) /\ Divs(q[2], e.d) /\ Divs(q[3], e.d) THEN 1 ELSE 0>>
 
 \* ------------------------------------------------------------- configuration
-\* cfg: [parent |-> seq of parent index (0 = base), edge |-> seq of affine records, geom |-> seq of
-\*       geometry index (0 = none)], geoms: seq of [v |-> seq of points, f |-> seq of index triples]
-\* transform of node n expressed in the frame of its ancestor `root` (0 = the base frame)
-RECURSIVE WorldK(_, _, _, _)
-WorldK(cfg, n, root, k) == IF n = root \/ n = 0 \/ k = 0 THEN IdA
-                           ELSE Compose(WorldK(cfg, cfg.parent[n], root, k - 1), FromRec(cfg.edge[n]))
-WorldFrom(cfg, n, root) == WorldK(cfg, n, root, Len(cfg.parent) + 1)
-World(cfg, n) == WorldFrom(cfg, n, 0)
-Nodes(cfg) == 1..Len(cfg.parent)
-Inst(cfg) == {n \in Nodes(cfg) : cfg.geom[n] # 0}
+\* c.cfg: [parent |-> seq of parent index (0 = base), edge |-> seq of [l, t, d], geom |-> seq of
+\*         geometry index (0 = none)], c.geoms: seq of [v |-> seq of points, f |-> seq of index triples,
+\*         a2 |-> twice the area when it is an integer]
+Nodes(c) == 1..Len(c.cfg.parent)
+Inst(c) == {n \in Nodes(c) : c.cfg.geom[n] # 0}
 RECURSIVE IsDescK(_, _, _, _)
-IsDescK(cfg, n, a, k) == IF n = 0 \/ k = 0 THEN FALSE
-                         ELSE IF cfg.parent[n] = a THEN TRUE ELSE IsDescK(cfg, cfg.parent[n], a, k - 1)
-IsDesc(cfg, n, a) == IsDescK(cfg, n, a, Len(cfg.parent) + 1)
+IsDescK(c, n, a, k) == IF n = 0 \/ k = 0 THEN FALSE
+                       ELSE IF c.cfg.parent[n] = a THEN TRUE ELSE IsDescK(c, c.cfg.parent[n], a, k - 1)
+IsDesc(c, n, a) == IsDescK(c, n, a, Len(c.cfg.parent) + 1)
+\* c.sub: 0, or the node whose subtree (the node itself included, at the identity) is placed relative to it
+Sel(c) == IF c.sub = 0 THEN Inst(c) ELSE {n \in Inst(c) : n = c.sub \/ IsDesc(c, n, c.sub)}
 
-\* placement: set of <<node, world transform>> ; an outer map M is applied on top (scaled / apply_transform)
-PlacedPts(cfg, geoms, M, S, root) ==
-    UNION {{Apply(Compose(M, WorldFrom(cfg, n, root)), geoms[cfg.geom[n]].v[k]) : k \in 1..Len(geoms[cfg.geom[n]].v)} : n \in S}
-MinC(P, c) == CHOOSE m \in {p[c] : p \in P} : \A p \in P : m <= p[c]
-MaxC(P, c) == CHOOSE m \in {p[c] : p \in P} : \A p \in P : m >= p[c]
+\* a point of node n carried up the chain of edges into the frame of `root` (0 = the base frame)
+RECURSIVE Up(_, _, _, _, _)
+Up(c, n, root, p, k) == IF n = root \/ n = 0 \/ k = 0 THEN p
+                        ELSE Up(c, c.cfg.parent[n], root, StepPt(c.cfg.edge[n], c.F, p), k - 1)
+\* eager sequences (TLC evaluates function constructors lazily, tuples eagerly)
+VtxSeq(c, n) ==
+    LET g == c.geoms[c.cfg.geom[n]]
+        RECURSIVE go(_)
+        go(k) == IF k > Len(g.v) THEN <<>>
+                 ELSE <<Up(c, n, c.sub, <<c.F * g.v[k][1], c.F * g.v[k][2], c.F * g.v[k][3], 1>>, Len(c.cfg.parent) + 1)>> \o go(k + 1)
+    IN go(1)
+Table0(c, S) ==
+    LET RECURSIVE go(_)
+        go(n) == IF n > Len(c.cfg.parent) THEN <<>> ELSE <<IF n \in S THEN VtxSeq(c, n) ELSE <<>> >> \o go(n + 1)
+    IN go(1)
+Range(s) == {s[k] : k \in 1..Len(s)}
+MinC(P, j) == CHOOSE m \in {p[j] : p \in P} : \A p \in P : m <= p[j]
+MaxC(P, j) == CHOOSE m \in {p[j] : p \in P} : \A p \in P : m >= p[j]
 BoundsOf(P) == <<<<MinC(P, 1), MinC(P, 2), MinC(P, 3)>>, <<MaxC(P, 1), MaxC(P, 2), MaxC(P, 3)>>>>
 
+\* ------------------------------------------------------------------ steps
+\* st.k = "m": the affine map [l, t, d];  st.k = "rezero": move the centre of the bounding box of the
+\* instances in scope to the origin;  scope: st.hi = 0: every instance, else the instances of nodes st.lo..st.hi
+\* (the nodes that came from one operand of a sum)
+InScope(st, n) == st.hi = 0 \/ (st.lo <= n /\ n <= st.hi)
+MapSeq(Op(_), s) ==
+    LET RECURSIVE go(_)
+        go(k) == IF k > Len(s) THEN <<>> ELSE <<Op(s[k])>> \o go(k + 1)
+    IN go(1)
+StepTable(c, T, st) ==
+    LET scope == UNION {Range(T[n]) : n \in {m \in 1..Len(T) : InScope(st, m)}}
+        sh == IF st.k = "rezero" /\ scope # {}
+              THEN LET B == BoundsOf(scope) IN AddV(B[1], B[2])
+              ELSE <<0, 0, 0>>
+        mv(p) == IF st.k = "rezero"
+                 THEN <<p[1] - (sh[1] \div 2), p[2] - (sh[2] \div 2), p[3] - (sh[3] \div 2),
+                        IF p[4] = 1 /\ Divs(sh[1], 2) /\ Divs(sh[2], 2) /\ Divs(sh[3], 2) THEN 1 ELSE 0>>
+                 ELSE StepPt(st, c.F, p)
+        RECURSIVE go(_)
+        go(n) == IF n > Len(T) THEN <<>>
+                 ELSE <<IF InScope(st, n) THEN MapSeq(mv, T[n]) ELSE T[n]>> \o go(n + 1)
+    IN go(1)
+RECURSIVE Fold(_, _, _)
+Fold(c, T, k) == IF k > Len(c.steps) THEN T ELSE Fold(c, StepTable(c, T, c.steps[k]), k + 1)
+\* the final table: node -> sequence of placed vertices (units of 1/F)
+Final(c, S) == Fold(c, Table0(c, S), 1)
+
+\* ------------------------------------------------------ quantities of a table
+AllPts(T) == UNION {Range(T[n]) : n \in 1..Len(T)}
 \* a triangle up to cyclic rotation, keeping orientation: its set of directed edges
 TriKey(a, b, c) == {<<a, b>>, <<b, c>>, <<c, a>>}
-\* bag of placed triangles as a function key -> multiplicity
-PlacedTriSeq(cfg, geoms, M, S, root) ==
+NodeTris(c, T, n) ==     \* oriented placed triangles of node n as <<a, b, c>>
+    LET g == c.geoms[c.cfg.geom[n]]
+    IN [k \in 1..Len(g.f) |-> <<P3(T[n][g.f[k][1]]), P3(T[n][g.f[k][2]]), P3(T[n][g.f[k][3]])>>]
+TriSeq(c, T, S) ==
     LET RECURSIVE Ser(_)
-        Ser(T) == IF T = {} THEN <<>>
-                  ELSE LET n == CHOOSE n \in T : TRUE
-                           g == geoms[cfg.geom[n]]
-                           W == Compose(M, WorldFrom(cfg, n, root))
-                       IN [k \in 1..Len(g.f) |-> TriKey(Apply(W, g.v[g.f[k][1]]), Apply(W, g.v[g.f[k][2]]),
-                                                       Apply(W, g.v[g.f[k][3]]))] \o Ser(T \ {n})
+        Ser(R) == IF R = {} THEN <<>>
+                  ELSE LET n == CHOOSE n \in R : TRUE IN NodeTris(c, T, n) \o Ser(R \ {n})
     IN Ser(S)
 BagOf(s) == [x \in {s[k] : k \in 1..Len(s)} |-> Cardinality({k \in 1..Len(s) : s[k] = x})]
-ObsTriSeq(tris) == [k \in 1..Len(tris) |-> TriKey(tris[k][1], tris[k][2], tris[k][3])]
+KeySeq(ts) == [k \in 1..Len(ts) |-> TriKey(ts[k][1], ts[k][2], ts[k][3])]
 
 \* six times the signed volume of a closed triangle list (sum of determinants with the origin)
-Det3(a, b, c) == Det(<<a, b, c>>)
 RECURSIVE SumVol(_, _)
 SumVol(g, k) == IF k = 0 THEN 0
                 ELSE Det3(g.v[g.f[k][1]], g.v[g.f[k][2]], g.v[g.f[k][3]]) + SumVol(g, k - 1)
 Vol6(g) == SumVol(g, Len(g.f))
-RECURSIVE SumInst(_, _, _, _, _)
-SumInst(cfg, geoms, M, S, root) ==
-    IF S = {} THEN 0
+\* volume / area factor of an instance: the product, edge by edge and step by step, of |det| / d^3
+\* (for similarity maps: of the squared scale |row|^2 / d^2), kept in lowest terms
+VolOf(e) == LET g == Gcd(Abs(Det(e.l)), e.d * e.d * e.d) IN <<Abs(Det(e.l)) \div g, (e.d * e.d * e.d) \div g>>
+AreaOf(e) == LET q == Dot(e.l[1], e.l[1])  g == Gcd(q, e.d * e.d) IN <<q \div g, (e.d * e.d) \div g>>
+OfK(kind, e) == IF kind = "vol" THEN VolOf(e) ELSE AreaOf(e)
+RECURSIVE PathFac(_, _, _, _, _)
+PathFac(c, kind, n, root, k) == IF n = root \/ n = 0 \/ k = 0 THEN ROne
+                                ELSE RMul(OfK(kind, c.cfg.edge[n]), PathFac(c, kind, c.cfg.parent[n], root, k - 1))
+RECURSIVE StepFac(_, _, _, _)
+StepFac(c, kind, n, k) == IF k > Len(c.steps) THEN ROne
+                          ELSE RMul(IF c.steps[k].k = "m" /\ InScope(c.steps[k], n) THEN OfK(kind, c.steps[k]) ELSE ROne, StepFac(c, kind, n, k + 1))
+Fac(c, kind, n) == RMul(PathFac(c, kind, n, c.sub, Len(c.cfg.parent) + 1), StepFac(c, kind, n, 1))
+\* sum over instances of  own * factor * unit  (unit = c.FV or c.FA must clear every denominator);
+\* second component 1 iff every division was exact
+OwnK(kind, g) == IF kind = "vol" THEN Vol6(g) ELSE g.a2
+RECURSIVE SumFac(_, _, _, _)
+SumFac(c, kind, unit, S) ==
+    IF S = {} THEN <<0, 1>>
     ELSE LET n == CHOOSE n \in S : TRUE
-         IN Abs(Det(Compose(M, WorldFrom(cfg, n, root)).l)) * Vol6(geoms[cfg.geom[n]]) + SumInst(cfg, geoms, M, S \ {n}, root)
-\* area of a similarity image scales with the square of the uniform scale; geometries carry twice
-\* their own area as an integer `a2` (all their faces are axis aligned), 0 when it is not an integer
-ScaleSq(L) == Dot(L[1], L[1])      \* rows of s*R have squared norm s^2
-RECURSIVE SumArea(_, _, _, _, _)
-SumArea(cfg, geoms, M, S, root) ==
-    IF S = {} THEN 0
-    ELSE LET n == CHOOSE n \in S : TRUE
-         IN ScaleSq(Compose(M, WorldFrom(cfg, n, root)).l) * geoms[cfg.geom[n]].a2 + SumArea(cfg, geoms, M, S \ {n}, root)
+             f == Fac(c, kind, n)
+             r == SumFac(c, kind, unit, S \ {n})
+         IN <<OwnK(kind, c.geoms[c.cfg.geom[n]]) * f[1] * (unit \div f[2]) + r[1], IF Divs(unit, f[2]) /\ r[2] = 1 THEN 1 ELSE 0>>
+
+\* ---------------------------------------------------------- convex hull
+\* c.obs.hull: [has, v |-> vertices (units of 1/F), f |-> faces (1-based)].  The reported mesh is the
+\* hull of the placed points P iff its vertices are points of P, it is a closed surface (every directed
+\* edge once, its reverse present), no face is degenerate and every point of P lies on the inner side
+\* of (or on) the plane of every face.
+HullOK(P, h) ==
+    LET pt(k) == <<h.v[k][1], h.v[k][2], h.v[k][3]>>
+        E == UNION {{<<h.f[j][1], h.f[j][2]>>, <<h.f[j][2], h.f[j][3]>>, <<h.f[j][3], h.f[j][1]>>} : j \in 1..Len(h.f)}
+    IN /\ Len(h.f) >= 4
+       /\ \A k \in 1..Len(h.v) : pt(k) \in P
+       /\ Cardinality(E) = 3 * Len(h.f)
+       /\ \A e \in E : <<e[2], e[1]>> \in E
+       /\ \A j \in 1..Len(h.f) :
+            LET a == pt(h.f[j][1])
+                u == SubV(pt(h.f[j][2]), a)
+                w == SubV(pt(h.f[j][3]), a)
+                nz(x) == x[1] # 0 \/ x[2] # 0 \/ x[3] # 0
+                cr == <<u[2] * w[3] - u[3] * w[2], u[3] * w[1] - u[1] * w[3], u[1] * w[2] - u[2] * w[1]>>
+            IN /\ nz(cr)
+               /\ \A p \in P : Dot(cr, SubV(p, a)) <= 0
+
+\* ------------------------------------------------- first and second moments
+\* closed oriented triangle list ts (F = 1):  24 * integral of x dV  and  120 * integral of x_i x_j dV
+RECURSIVE M1(_, _, _)
+M1(ts, j, k) == IF k = 0 THEN 0
+                ELSE Det3(ts[k][1], ts[k][2], ts[k][3]) * (ts[k][1][j] + ts[k][2][j] + ts[k][3][j]) + M1(ts, j, k - 1)
+RECURSIVE M2(_, _, _, _)
+M2(ts, a, b, k) ==
+    IF k = 0 THEN 0
+    ELSE LET t == ts[k]
+         IN Det3(t[1], t[2], t[3]) * (t[1][a] * t[1][b] + t[2][a] * t[2][b] + t[3][a] * t[3][b]
+                                      + (t[1][a] + t[2][a] + t[3][a]) * (t[1][b] + t[2][b] + t[3][b]))
+            + M2(ts, a, b, k - 1)
+Cm24(ts) == <<M1(ts, 1, Len(ts)), M1(ts, 2, Len(ts)), M1(ts, 3, Len(ts))>>
+\* 120 * inertia tensor about the origin of the base frame: <<Ixx, Iyy, Izz, Ixy, Ixz, Iyz>>
+In120(ts) == LET n == Len(ts)
+             IN <<M2(ts, 2, 2, n) + M2(ts, 3, 3, n), M2(ts, 1, 1, n) + M2(ts, 3, 3, n), M2(ts, 1, 1, n) + M2(ts, 2, 2, n),
+                  -M2(ts, 1, 2, n), -M2(ts, 1, 3, n), -M2(ts, 2, 3, n)>>
 
 \* ------------------------------------------------------------------ validator
-\* c.cfg / c.geoms: configuration the observation must agree with (after the edits, computed by
-\*   the harness only structurally: which edge / vertex was overwritten with which integers)
-\* c.m: outer affine map the operation is specified to apply to every placement
-\* c.sub: 0, or the node whose strict descendants are placed relative to it (subscene)
-\* c.obs: what the real scene reported
-Sel(c) == IF c.sub = 0 THEN Inst(c.cfg) ELSE {n \in Inst(c.cfg) : IsDesc(c.cfg, n, c.sub)}
-\* rezero moves the centre of the bounding box to the origin (coordinates are doubled by the harness so
-\* that the centre is an integer point)
-Outer(c) == IF c.op = "rezero"
-            THEN LET B == BoundsOf(PlacedPts(c.cfg, c.geoms, IdA, Sel(c), c.sub))
-                 IN [l |-> IdL, t |-> <<-((B[1][1] + B[2][1]) \div 2), -((B[1][2] + B[2][2]) \div 2), -((B[1][3] + B[2][3]) \div 2)>>]
-            ELSE FromRec(c.m)
-Clause(c) ==
-    LET S == Sel(c)
-        P == PlacedPts(c.cfg, c.geoms, Outer(c), S, c.sub)
+\* c.obs: what the real scene reported (coordinates times F, 6*volume times FV, 2*area times FA)
+ClauseFor(c, S) ==
+    LET T == Final(c, S)
+        A == AllPts(T)
+        P == {P3(p) : p \in A}
+        ts == TriSeq(c, T, S)
+        vol == SumFac(c, "vol", c.FV, S)
+        area == SumFac(c, "area", c.FA, S)
     IN IF S = {} THEN (IF c.obs.empty THEN "ok" ELSE "expected_empty_scene")
        ELSE IF c.obs.empty THEN "unexpected_empty_scene"
+       ELSE IF \E p \in A : p[4] # 1 THEN "inexact"
        ELSE IF c.obs.bounds # BoundsOf(P) THEN "bounds"
-       ELSE IF c.obs.has_tris /\ BagOf(ObsTriSeq(c.obs.tris)) # BagOf(PlacedTriSeq(c.cfg, c.geoms, Outer(c), S, c.sub)) THEN "triangles"
-       ELSE IF c.obs.has_vol /\ c.obs.vol6 # SumInst(c.cfg, c.geoms, Outer(c), S, c.sub) THEN "volume"
-       ELSE IF c.obs.has_area /\ c.obs.area2 # SumArea(c.cfg, c.geoms, Outer(c), S, c.sub) THEN "area"
+       ELSE IF c.obs.has_tris /\ BagOf(KeySeq(c.obs.tris)) # BagOf(KeySeq(ts)) THEN "triangles"
+       ELSE IF c.obs.has_vol /\ c.obs.vol_exc # "" THEN "volume_raised"
+       ELSE IF c.obs.has_vol /\ vol[2] # 1 THEN "inexact"
+       ELSE IF c.obs.has_vol /\ c.obs.vol6 # vol[1] THEN "volume"
+       ELSE IF c.obs.has_area /\ c.obs.area_exc # "" THEN "area_raised"
+       ELSE IF c.obs.has_area /\ area[2] # 1 THEN "inexact"
+       ELSE IF c.obs.has_area /\ c.obs.area2 # area[1] THEN "area"
+       ELSE IF c.obs.hull.has /\ c.obs.hull.exc # "" THEN "hull_raised"
+       ELSE IF c.obs.hull.has /\ ~HullOK(P, c.obs.hull) THEN "hull"
+       ELSE IF c.obs.mass.has /\ c.obs.mass.exc # "" THEN "mass_raised"
+       ELSE IF c.obs.mass.has /\ (~c.obs.mass.cm_on \/ c.obs.mass.cm24 # Cm24(ts)) THEN "center_mass"
+       ELSE IF c.obs.mass.has /\ (~c.obs.mass.in_on \/ c.obs.mass.in120 # In120(ts)) THEN "inertia"
        ELSE "ok"
+
+\* As built, Scene.subscene(node) leaves out the geometry carried by `node` itself (it sits on the edge
+\* from the parent of `node`, which is not part of the subscene).  An observation that is wrong for the
+\* subtree but right for the strict descendants is named, so that the harness can attribute it.
+Clause(c) ==
+    LET cl == ClauseFor(c, Sel(c))
+    IN IF cl # "ok" /\ cl # "inexact" /\ c.sub # 0 /\ c.sub \in Inst(c) /\ ClauseFor(c, Sel(c) \ {c.sub}) = "ok"
+       THEN "subscene_drops_own_geometry" ELSE cl
 
 Init == i = 1
 Next == i < Len(Cases) /\ i' = i + 1
